@@ -105,6 +105,11 @@ CLAIMED["C13"] = dict(
    category="other",
    text="Deductive proof for every note stream (loop invariant) that time_notes yields exactly what the statement prescribes per note, with the engine abstracted by callee contracts, and that hittable() is False exactly when the state in force after everything on that beat lies inside a warp and no stop/delay ends on that beat. That this reading of the state list equals 'inside the union of warp segments and no stop or delay on that beat' is a bounded stand-in on every tick of every small configuration - hence level 'other'.",
    note=_ENG_NOTE, technique="contract-based deductive verification (loop invariant, callee contracts, look-up postcondition) with a bounded exhaustive stand-in", design_ref="6/C13")
+CLAIMED["C08"] = dict(
+   category="other",
+   text="NoteData.from_notes (three nested itertools.groupby loops, a reduce over gcd and closures writing to a StringIO) could not be brought under loop invariants in this session; it is decided by a bounded stand-in against the statement (decode(encode(notes)) == notes, requested column count, 4 x lcm rows per measure, every measure up to the last note, blank skipped measures/players, canonical stability, one blank measure for the empty stream) on the empty stream, all 1- and 2-note streams of a small grid and generated sorted streams with mixed denominators, players with gaps and keysounds. What is proved deductively is the arithmetic the canonical form rests on (integer row index, row decodes to the same beat, row range). Labelled bounded; level 'other'.",
+   note="Trusted: gcd/reduce compute the lcm, the decoder (C07), VC generator, z3/cvc5 for the lemmas. The bounded stand-in is never counted as proved.",
+   technique="bounded exhaustive/generated stand-in for from_notes (stated bound) plus SMT lemmas for the row arithmetic", design_ref="6/C08")
 NA_REASON = "not yet brought under contract in this session (work in progress; see DESIGN.md section 6 for the plan)"
 
 NA_TABLE = {}
